@@ -42,6 +42,22 @@ add("C18", "exploration",
     "Trusts the harness's checked-i128 rational arithmetic and the textbook recurrences (A&S 22.7).",
     "DESIGN.md 4/C18")
 
+add("C07", "exploration",
+    "property-based testing (proptest) with an instrumented objective function: abscissa recorder + evaluation budget, catalogue of functions with analytically known sign-change roots; Ok/Err classification oracle",
+    "Generated (solver, function, bracket, tolerance, ITP parameter) cases; the function passed to the solver records every abscissa and enforces a hard evaluation budget, so containment, termination and accuracy (distance to a known sign change, or |f|<tol for Brent) are decided per case; invalid inputs must give Err.",
+    "Exploration only. Root sets of the catalogue are analytic; a 4-ulp slack is allowed on 'inside the closed interval' because bracket ends are recomputed in the harness.",
+    "DESIGN.md 4/C07")
+add("C08", "exploration",
+    "property-based testing (proptest): constructed systems A(x-r)+eta*N(x-r) with known root and controlled conditioning, polynomials expanded from separated roots, contraction catalogue; call-count budgets; known-finding signature matching",
+    "Generated regular problems inside the convergence region by construction (Kantorovich-type cap on the non-linearity; Newton basin radius 0.8 d/(2n-1) for polynomials; Muller triples within 0.1 of the root separation) must return Ok within 2 tol + rounding floor; singular/exhausted classes must give Err or a genuine solution; no panic/NaN; iteration caps respected via call counters.",
+    "Exploration only. One recorded finding (K2: secant on singular systems) is matched by signature and reported as KNOWN-FINDING. Wide Muller triples are sanity-checked only (the stopping heuristic can fire by coincidence far from a root).",
+    "DESIGN.md 4/C08")
+add("C14", "exploration",
+    "property-based testing (proptest): polynomials expanded from grid-constructed separated roots (real, conjugate pairs, complex, sparse x^n-c), one-to-one root matching oracle; exhaustive orthogonal-polynomial zeros against recurrence-based bisection",
+    "Generated polynomials of degree 1-10 with known separated roots: Ok required, exactly degree-many results matched one-to-one within a tolerance-scaled bound, conjugation closure; zeros of Legendre/Hermite (n<=16) and Laguerre (n<=12) enumerated completely against an independent reference.",
+    "Exploration only; tolerance range starts at 10x the a-priori evaluation noise floor; n_max fixed to 200.",
+    "DESIGN.md 4/C14")
+
 ALL = ["C%02d" % i for i in range(1, 21)]
 
 def main():
